@@ -22,6 +22,7 @@ import (
 
 var c11Progress int64
 var c11Current atomic.Value // string
+var c11Target0 atomic.Value // string: target being parsed
 
 type c11Replay struct {
 	Target string `json:"target"`
@@ -53,6 +54,8 @@ func c11Targets() []c11Target {
 
 func c11One(R *vlib.Out, tg c11Target, in []byte) {
 	R.Eval()
+	c11Target0.Store(tg.name)
+	c11Current.Store(string(in))
 	atomic.AddInt64(&c11Progress, 1)
 	for _, strict := range []bool{true, false} {
 		data := make([]byte, len(in))
@@ -99,6 +102,8 @@ func contains(s, sub string) bool {
 
 func c11Lookup(R *vlib.Out, in []byte, tag string) {
 	R.Eval()
+	c11Target0.Store("ValueByTag:" + tag)
+	c11Current.Store(string(in))
 	atomic.AddInt64(&c11Progress, 1)
 	data := make([]byte, len(in))
 	copy(data, in)
@@ -123,7 +128,8 @@ func startWatchdog(R *vlib.Out) {
 			last = p
 			if stuck >= 5 {
 				cur, _ := c11Current.Load().(string)
-				R.Violate("hang", "no progress for 10 s while parsing "+strconv.Quote(cur), c11Replay{"", []byte(cur), ""})
+				tgt, _ := c11Target0.Load().(string)
+				R.Violate("hang", "no progress for 10 s in "+tgt+" on "+strconv.Quote(cur), c11Replay{tgt, []byte(cur), ""})
 				R.Finish()
 				os.Exit(0)
 			}
@@ -228,6 +234,111 @@ func enumC11(R *vlib.Out, maxLen, maxTok int) {
 		}
 		rec2()
 	}
+	if !stop {
+		enumMisplaced(R, maxTok-2, &stop)
+	}
+}
+
+// enumMisplaced is family (iii): byte strings that pass the library's integrity check although the
+// CheckSum field is not the last field.  validateRaw locates BeginString, BodyLength and CheckSum by
+// their first occurrence and assumes the last len("10=xyz")+1 = 7 bytes are the CheckSum field, so
+// "8=FIX.4.4|9=n|<body>10=SSS|<7 arbitrary bytes>" passes when n and SSS are chosen accordingly.
+// The harness solves for SSS (self-referential: the field lies inside the summed region) by trying
+// filler characters.  Every such string reaches field and group parsing with an arbitrary tail, e.g.
+// a group count field that nothing follows.
+func enumMisplaced(R *vlib.Out, maxTok int, stop *bool) {
+	targets := c11Targets()
+	n := 0
+	for ti, tg := range targets {
+		toks := append([]string{"\x01", "=", "35=X\x01", "34", "0", "1", "2"}, tg.tokens...)
+		tails := []string{"=======", "\x01\x01\x01\x01\x01\x01\x01", "1234567", "35=AAA\x01", "\x0134=12\x01", "10=000\x01"}
+		pad := func(t string) {
+			for len(t) < 7 {
+				t = "\x01" + t
+			}
+			if len(t) == 7 {
+				tails = append(tails, t)
+			}
+		}
+		for _, t := range tg.tokens {
+			pad(t + "=1\x01")   // a count field that nothing follows
+			pad(t + "=2")       // ... without even a delimiter
+			pad(t + "=\x01")    // empty count
+			pad(t + "\x01")     // tag without '='
+			pad("1" + t + "=1") // longer tag ending in the count tag
+		}
+		seq := make([]int, 0, maxTok)
+		var rec func()
+		rec = func() {
+			if *stop {
+				return
+			}
+			body := ""
+			for _, k := range seq {
+				body += toks[k]
+			}
+			for _, tail := range tails {
+				n++
+				if n%1024 == 0 && vlib.Expired() {
+					R.Cap("deadline")
+					*stop = true
+					return
+				}
+				if !vlib.Mine(n + ti) {
+					continue
+				}
+				if false {
+					R.Cap("deadline")
+					*stop = true
+					return
+				}
+				msg := frameMisplaced(body, tail)
+				if msg == nil {
+					R.Count("misplaced:no-solution")
+					continue
+				}
+				c11Current.Store(string(msg))
+				c11One(R, tg, msg)
+				R.ClassD(fmt.Sprintf("misplaced/%s/%d/%d", tg.name, len(seq), n%256))
+				R.Sample(6, map[string]string{"target": tg.name, "misplaced_checksum": vlib.Show(msg)})
+			}
+			if len(seq) == maxTok {
+				return
+			}
+			for k := range toks {
+				seq = append(seq, k)
+				rec()
+				seq = seq[:len(seq)-1]
+			}
+		}
+		rec()
+	}
+}
+
+// frameMisplaced returns "8=FIX.4.4|9=n|<body>[58=c|]10=SSS|<tail>" accepted by the stated rule, or nil.
+func frameMisplaced(body, tail string) []byte {
+	if len(body) > 0 && body[len(body)-1] != 1 {
+		body += "\x01"
+	}
+	for _, filler := range []string{"", "58=a\x01", "58=b\x01", "58=c\x01", "58=d\x01", "58=e\x01", "58=f\x01", "58=g\x01", "58=h\x01", "58=ab\x01"} {
+		b := body + filler
+		// declared length: bytes after the BodyLength field through the byte before the last 7 bytes... the
+		// library measures len(d) - offset - 7 where the last 7 bytes stand for the CheckSum field
+		inner := b + "10=SSS\x01" + tail
+		n := len(inner) - 7
+		head := "8=FIX.4.4\x019=" + strconv.Itoa(n) + "\x01"
+		for s := 0; s < 256; s++ {
+			d := []byte(head + b + fmt.Sprintf("10=%03d\x01", s) + tail)
+			sum := 1
+			for _, c := range d[:len(d)-8] {
+				sum += int(c)
+			}
+			if sum%256 == s {
+				return d
+			}
+		}
+	}
+	return nil
 }
 
 func idx(c byte) int {
@@ -266,6 +377,10 @@ func replayC11(R *vlib.Out) {
 	startWatchdog(R)
 	if rp.Tag != "" {
 		c11Lookup(R, rp.Input, rp.Tag)
+		return
+	}
+	if len(rp.Target) > 11 && rp.Target[:11] == "ValueByTag:" {
+		c11Lookup(R, rp.Input, rp.Target[11:])
 		return
 	}
 	for _, tg := range c11Targets() {
